@@ -169,6 +169,12 @@ func intrinsic(ex *Exec, st *State, site ssa.Instruction, fn *ssa.Function, args
 		}
 		ex.Decoded = iv.V
 		return ex.strToBytes(st, ConcreteStr("<toml>"))
+	case "Enable":
+		if ex.Flags == nil {
+			ex.Flags = map[string]bool{}
+		}
+		ex.Flags[concreteStrArg(args[0], name)] = true
+		return nil
 	case "Param":
 		nm := concreteStrArg(args[0], name)
 		if v, ok := ex.Params[nm]; ok {
@@ -243,6 +249,29 @@ func registerStubs(ex *Exec) {
 	}
 	S["math.Abs"] = func(ex *Exec, st *State, site ssa.Instruction, fn *ssa.Function, args []Value) Value {
 		return smt.FAbs(args[0].(*smt.Term))
+	}
+	S["github.com/holoplot/go-evdev.Open"] = func(ex *Exec, st *State, site ssa.Instruction, fn *ssa.Function, args []Value) Value {
+		// in the sandbox (and for handlers without an event node) opening always fails; the name/uniq/abs-info
+		// bookkeeping behind a successful open is outside the claim
+		return &TupleV{E: []Value{Nil, &IfaceV{T: nil, V: ex.newOpaque("error")}}}
+	}
+	// optional summary of a pure HIDI callee (enabled by a harness with verifrt.Enable): the handler type is read
+	// from DeviceInfo.Properties[0], where the harness put the type its capability list really has (checked by a
+	// separate harness against the real HandlerType)
+	S["flag:HandlerTypeFromProperties:(*github.com/gethiox/HIDI/internal/pkg/input.DeviceInfo).HandlerType"] = func(ex *Exec, st *State, site ssa.Instruction, fn *ssa.Function, args []Value) Value {
+		return ex.withChoice(st, args[0], func(st *State, v Value) Value {
+			di := ex.load(st, site, v.(*PtrV)).(*StructV)
+			// field order of DeviceInfo: ID, Name, Phys, Sysfs, Uniq, eventName, CapableTypes, Properties
+			props := di.F[7]
+			return ex.withChoice(st, props, func(st *State, pv Value) Value {
+				sl := pv.(*SliceV)
+				el := ex.sliceElems(st, sl)
+				if len(el) == 0 {
+					return bv64(0)
+				}
+				return smt.ZExt(el[0].(*smt.Term), 64)
+			})
+		})
 	}
 	registerTomlStubs(ex)
 	registerStringStubs(ex)
